@@ -39,7 +39,7 @@ Fixpoint e_mentions (e : expr) : bool :=
   | EField _ => true
   | EBin _ l r => e_mentions l || e_mentions r
   | ENot e => e_mentions e
-  | EReset e => e_mentions e
+  | EReset e => match e with ELit _ _ _ => true | _ => e_mentions e end   (* membership in an empty list still refers to its operand *)
   | EPart _ _ _ => true
   end.
 Fixpoint s_mentions (s : stmt) : bool :=
@@ -65,7 +65,8 @@ Fixpoint multiset_eqb (a b : list bvterm) : bool :=
   | x :: r => match remove_first x b with Some b' => multiset_eqb r b' | None => false end
   end.
 Definition model_terms (c : scase) : list bvterm :=
-  flat_map (fun s => if s_mentions s && negb (is_soft s)
+  (* every hard top-level statement reaches the solver, also one that mentions no field (repaired code) *)
+  flat_map (fun s => if negb (is_soft s)
                      then match lower_s (sc_G c) (sc_B c) false s with Some t => [t] | None => [] end
                      else []) (sc_hard c).
 Fixpoint submultiset (a b : list bvterm) : bool :=      (* every element of a, with multiplicity, occurs in b *)
@@ -101,7 +102,8 @@ Fixpoint perm_nat (a b : list nat) : bool :=
   | x :: t => match remove_nat x b with Some b' => perm_nat t b' | None => false end
   end.
 Definition callbacks_ok (c : scase) : bool :=
-  let m := flat_map (callbacks true 0) (sc_roots c) in
+  (* lists are composites without callbacks: the harness numbers them from 1000 *)
+  let m := filter (fun o => Nat.ltb o 1000) (flat_map (callbacks true 0) (sc_roots c)) in
   perm_nat m (sc_pre c) && ((negb (sc_outcome c =? 0)) || perm_nat m (sc_post c)).
 (* every well-formed hard statement holds (an undefined one gives no verdict) *)
 Definition hard_ok (c : scase) (vals : list Z) : bool :=
@@ -186,6 +188,8 @@ Definition soft_values_ok (c : scase) : bool :=
   else greedy_ok c (all_assignments c) [] (sc_soft_items c).
 
 (* ---- inferred domains (C14) ---- *)
+Definition type_bounds (d : fdecl) : Z * Z :=
+  if f_sg d then (- 2 ^ (f_w d - 1), 2 ^ (f_w d - 1) - 1) else (0, 2 ^ f_w d - 1).
 Definition in_dom (d : list (Z * Z)) (v : Z) : bool := existsb (fun r => (fst r <=? v) && (v <=? snd r)) d.
 (* does a statement mention leaf id? *)
 Fixpoint e_uses (id : nat) (e : expr) : bool :=
@@ -217,13 +221,15 @@ Definition domains_ok (c : scase) : bool :=
       match nth id (sc_domains c) None with
       | None => true
       | Some d =>
-        negb (flag_of (sc_flags c) id) ||
-        (forallb (fun vals => in_dom d (nth id vals 0)) sols &&
-         (existsb (s_uses id) (sc_hard c) ||
-          match nth_error (sc_G c) id, nth id (sc_enum c) None with
-          | Some fd, None => forallb (in_dom d) (domain fd None)
-          | _, _ => true
-          end))
+        (* if-then-else, not ||: vm_compute evaluates both operands of a boolean operator *)
+        if negb (flag_of (sc_flags c) id) then true
+        else if negb (forallb (fun vals => in_dom d (nth id vals 0)) sols) then false
+        else if existsb (s_uses id) (sc_hard c) then true
+        else match nth_error (sc_G c) id, nth id (sc_enum c) None with
+             | Some fd, None => if f_w fd <=? 13 then forallb (in_dom d) (domain fd None)
+                                else in_dom d (fst (type_bounds fd)) && in_dom d (snd (type_bounds fd))
+             | _, _ => true
+             end
       end) (seq 0 (length (sc_G c))).
 
 (* bit codes: 1 terms differ (A) ; 2 a hard statement is violated / value outside its type / enum (C01) ;
@@ -237,7 +243,7 @@ Definition s_check (c : scase) (do_sat : bool) : Z :=
            then (if hard_ok c (sc_after c) && types_ok c && enums_ok c then 0 else 2)
            else 0 in
   let f := if frame_ok c then 0 else 4 in
-  let o := if sc_outcome c =? 2 then (if all_wt c && (negb do_sat || negb (sat3 c =? 2)) then 8 else 0)
+  let o := if sc_outcome c =? 2 then (if all_wt c then 8 else 0)   (* an exception other than SolveFailure is never a verdict *)
            else if do_sat then
              match sat3 c with
              | 1 => if sc_outcome c =? 1 then 8 else 0
